@@ -1,12 +1,21 @@
 import UF.Proofs.ProgRun
+import UF.Proofs.ProgSound
 import UF.Proofs.ProgCached
 /-
   C19 — unreadable rule lists degrade results to a subset, never crash or lie.
   Theorems over the Prog model with the fault action `close listId` at any point of any history or
   schedule.  A closed list makes `listRead` fail (`RetrieveRule` returns an error, the helper returns
-  nil); the model's query skips the nil rule exactly where lookup/*.go and dnsengine.go test
-  `rule != nil`.  That os.File really fails every Seek/Read after Close is an assumption (checked by the
-  `c19fault` runs only).
+  nil).  The model has an explicit failure outcome `PC.crash`, reached when a nil pointer is
+  dereferenced: the nil checks of lookup/shortcutstable.go, lookup/domainstable.go and
+  dnsengine.go:matchLookupTable are BRANCHES of `step`; `stepNoNilCheck src` is the machine with the
+  check of table `src` removed, and there a crash is reachable (`c19_nil_check_needed`).  That os.File
+  really fails every Seek/Read after Close is an assumption (checked by the `c19fault` runs only).
+
+  A DNS answer is the pair (network rules, host rules).  Under faults the host part is compared with
+  `pureHosts` (what the hosts table holds for the name): when the network rule that would have decided
+  the request is unreadable, `MatchRequest` falls through to the hosts table, so host rules can appear
+  that the fault-free answer (which stops at the network rule) does not contain -- they are genuine
+  matching rules, and `c19_subset` says exactly that.
 -/
 namespace UF.C19
 open UF UF.Prog
@@ -17,86 +26,130 @@ def queriesOf : List HEv → List Query
   | .query q :: rest => q :: queriesOf rest
   | .close _ :: rest => queriesOf rest
 
-/-- No crash, no hang: from ANY state (any lists closed, any cache, no invariant assumed) a query run
-    sequentially reaches `done` within its fuel bound.  In the model a rule is only ever used
-    (`compile`, `Match`, appended to the result) at `PC.comp r`, which is entered only from a cache hit
-    or a successful read; the failed retrieval goes straight to the next candidate. -/
-theorem c19_nopanic {R : Type} (env : Env R) (s : State R) (q : Query) : (runQuery env s q).2.pc = .done :=
-  runQuery_done env s q
+/-- No crash, concurrent form: NO schedule of actions of any number of concurrent queries and `close`
+    events at arbitrary points reaches `crash`, from any state satisfying the shared invariant. -/
+theorem c19_nopanic {R Re : Type} (env : Env R Re) (s : State R Re) (qs : List Query) (sched : List Ev)
+    (hs : SInv env s) :
+    ∀ t ∈ (Config.run env ⟨s, qs.map Thread.init⟩ sched).threads, t.pc ≠ .crash := by
+  have h := run_cinv_sound sched _ (cinv_init (Sound env) env s qs hs (sound_init env))
+  intro t ht
+  exact (h.2 t ht).1.2.2
 
-/-- Never lie, concurrent form: for EVERY schedule mixing actions of any number of concurrent queries
-    with `close` events at arbitrary points, from any state satisfying `CacheInv`: the answer of every
-    finished query is a sub-sequence of the fault-free stateless answer -- every returned rule is a
-    genuine rule of the lists that matches the request. -/
-theorem c19_subset {R : Type} (env : Env R) (s : State R) (qs : List Query) (sched : List Ev)
-    (hc : CacheInv env s) :
-    ∀ t ∈ (Config.run env ⟨s, qs.map Thread.init⟩ sched).threads,
-      t.pc = .done → (t.answer env).Sublist (pureAnswer env t.q) := by
-  have hinit : CInv List.Sublist env ⟨s, qs.map Thread.init⟩ := by
-    refine ⟨hc, ?_⟩
-    intro t ht
-    simp only [List.mem_map] at ht
-    obtain ⟨q, _, rfl⟩ := ht
-    exact good_init _ env q
-  have h := run_cinv_sub sched _ hinit
-  intro t ht hd
-  exact answer_of_good_sub (h.2 t ht) hd
+/-- No crash, no hang, sequential form: in ANY fault state a query run alone reaches `done` within its fuel
+    bound. -/
+theorem c19_nopanic_seq {R Re : Type} (env : Env R Re) (s : State R Re) (q : Query) (hs : SInv env s) :
+    (runQuery env s q).2.pc = .done :=
+  (runQuery_good q hs).2.2
 
-/-- Never lie, spelled out: every rule in the answer of a finished query -- under any schedule and any
-    faults -- matches the request and is a genuine rule: held in memory by the engine, or what the
-    unmodified lists hold at one of the query's candidate indices (never a zero or stale rule). -/
-theorem c19_truthful {R : Type} (env : Env R) (s : State R) (qs : List Query) (sched : List Ev)
-    (hc : CacheInv env s) :
-    ∀ t ∈ (Config.run env ⟨s, qs.map Thread.init⟩ sched).threads, t.pc = .done → ∀ r ∈ t.answer env,
-      env.mtch r (env.reqOf t.q) = true ∧
-        (r ∈ env.resident ∨ ∃ idx ∈ env.cands (env.reqOf t.q), env.truth idx = some r) := by
-  intro t ht hd r hr
-  have hm := (c19_subset env s qs sched hc t ht hd).subset hr
-  simp only [pureAnswer, pureStorage, List.mem_append, List.mem_filter, List.mem_filterMap] at hm
-  rcases hm with ⟨⟨idx, hi, htr⟩, hm⟩ | ⟨hres, hm⟩
-  · exact ⟨hm, Or.inr ⟨idx, hi, htr⟩⟩
-  · exact ⟨hm, Or.inl hres⟩
-
-/-- Never lie, sequential form: for every history with `close` events at any points (fault before
-    query k for any k, several faults, any lists), answer i is a sub-sequence of `pureAnswer` of query i. -/
-theorem c19_subset_history {R : Type} (env : Env R) (h : List HEv) :
-    ∀ (s : State R), CacheInv env s →
-      (runHistory env s h).2.length = (queriesOf h).length ∧
-      ∀ p ∈ (runHistory env s h).2.zip (queriesOf h), p.1.Sublist (pureAnswer env p.2) := by
+/-- … and no history of queries and `close` events contains a query that does not finish. -/
+theorem c19_nopanic_history {R Re : Type} (env : Env R Re) (h : List HEv) :
+    ∀ (s : State R Re), SInv env s → ∀ t ∈ (runHistoryT env s h).2, t.pc = .done := by
   induction h with
-  | nil => intro s _; exact ⟨rfl, by simp [runHistory, queriesOf]⟩
+  | nil => intro s _ t ht; cases ht
   | cons e rest ih =>
-    intro s hc
+    intro s hs t ht
     cases e with
     | query q =>
-      have hg := runQuery_good_sub q hc
-      have hd := runQuery_done env s q
-      have ha := answer_of_good_sub hg.2 hd
+      have hg := runQuery_good q hs
+      simp only [runHistoryT, List.mem_cons] at ht
+      rcases ht with rfl | ht
+      · exact hg.2.2
+      · exact ih _ hg.1 t ht
+    | close l => exact ih { s with closed := l :: s.closed } hs t ht
+
+/-- The theorem has content: in the machine with the nil check of ANY ONE of the three tables removed, a
+    query after a `close` reaches `crash` (one candidate of that table in a closed list, cold cache). -/
+theorem c19_nil_check_needed (src : Src) :
+    let env : Env Nat Nat :=
+      { truth := fun i => if i == 10 then some 7 else none, listOf := fun _ => 1, etld1 := id,
+        cands := fun _ => match src with | .sc => [(true, 10)] | .dom => [(false, 10)] | .host => [],
+        hcands := fun _ => [10], basic := fun _ => false,
+        wants := fun _ _ => true, pre := fun _ _ => true, compile := fun _ => .any,
+        accepts := fun _ _ _ => true, resident := [] }
+    ∃ sched : List Ev,
+      ((Config.runG (stepNoNilCheck src env) ⟨{}, [Thread.init (.dns { hostname := lit "a" })]⟩ sched).threads.map
+        (·.pc.isCrash)) = [true] ∧
+      ((Config.run env ⟨{}, [Thread.init (.dns { hostname := lit "a" })]⟩ sched).threads.map
+        (·.pc.isCrash)) = [false] := by
+  cases src
+  · exact ⟨[.close 1, .run 0, .run 0, .run 0, .run 0], by decide⟩
+  · exact ⟨[.close 1, .run 0, .run 0, .run 0, .run 0], by decide⟩
+  · exact ⟨[.close 1, .run 0, .run 0, .run 0, .run 0, .run 0], by decide⟩
+
+/-- Never lie, concurrent form: for EVERY schedule mixing actions of any number of concurrent queries
+    with `close` events at arbitrary points, from any state satisfying the shared invariant: every network
+    rule a finished query returns is in the fault-free stateless answer, every host rule is one the hosts
+    table holds for the name (and matches, see `c19_truthful`). -/
+theorem c19_subset {R Re : Type} (env : Env R Re) (s : State R Re) (qs : List Query) (sched : List Ev)
+    (hs : SInv env s) :
+    ∀ t ∈ (Config.run env ⟨s, qs.map Thread.init⟩ sched).threads, t.pc = .done →
+      (∀ r ∈ t.answer.1, r ∈ (pureAnswer env t.q).1) ∧
+      (∀ r ∈ t.answer.2, r ∈ pureHosts env (env.reqOf t.q)) := by
+  have h := run_cinv_sound sched _ (cinv_init (Sound env) env s qs hs (sound_init env))
+  intro t ht hd
+  have := sound_answer (h.2 t ht).1.1 (h.2 t ht).2 hd
+  exact ⟨this.1, this.2.1⟩
+
+/-- Never lie, spelled out: every rule in the answer of a finished query -- under any schedule and any
+    faults -- is a genuine rule that matches the request: the entry of the sequential table it came from, or
+    what the unmodified lists hold at the storage index it was retrieved from, of the kind the table asks
+    for (never a zero, stale or foreign rule), and `Match` -- evaluated on a FRESH rule object -- accepts. -/
+theorem c19_truthful {R Re : Type} (env : Env R Re) (s : State R Re) (qs : List Query) (sched : List Ev)
+    (hs : SInv env s) :
+    ∀ t ∈ (Config.run env ⟨s, qs.map Thread.init⟩ sched).threads, t.pc = .done → ∀ e ∈ t.acc,
+      match e.1 with
+      | .st src idx => env.truth idx = some e.2 ∧ env.wants src e.2 = true ∧
+          env.verdict src e.2 (env.reqOf t.q) = true
+      | .seq k => env.resident[k]? = some e.2 ∧ env.mtch e.2 (env.reqOf t.q) = true := by
+  have h := run_cinv_sound sched _ (cinv_init (Sound env) env s qs hs (sound_init env))
+  intro t ht hd e he
+  exact (sound_answer (h.2 t ht).1.1 (h.2 t ht).2 hd).2.2 e he
+
+/-- Never lie, sequential form: for every history with `close` events at any points (fault before
+    query k for any k, several faults, any lists), answer i is contained in `pureAnswer` of query i
+    (host part: in `pureHosts`). -/
+theorem c19_subset_history {R Re : Type} (env : Env R Re) (h : List HEv) :
+    ∀ (s : State R Re), SInv env s →
+      (runHistory env s h).2.length = (queriesOf h).length ∧
+      ∀ p ∈ (runHistory env s h).2.zip (queriesOf h),
+        (∀ r ∈ p.1.1, r ∈ (pureAnswer env p.2).1) ∧ (∀ r ∈ p.1.2, r ∈ pureHosts env (env.reqOf p.2)) := by
+  induction h with
+  | nil => intro s _; exact ⟨rfl, by simp [runHistory, runHistoryT, queriesOf]⟩
+  | cons e rest ih =>
+    intro s hs
+    cases e with
+    | query q =>
+      have hg := runQuery_good q hs
+      have hsd := runQuery_sound q hs
+      have ha := sound_answer hg.2.1.1 hsd hg.2.2
       rw [runQuery_q] at ha
       obtain ⟨h1, h2⟩ := ih _ hg.1
-      simp only [runHistory, queriesOf, List.length_cons, List.zip_cons_cons, List.mem_cons]
+      simp only [runHistory] at h1 h2 ⊢
+      simp only [runHistoryT, queriesOf, List.map_cons, List.length_cons, List.zip_cons_cons, List.mem_cons]
       refine ⟨by rw [h1], ?_⟩
       intro p hp
       rcases hp with rfl | hp
-      · exact ha
+      · exact ⟨ha.1, ha.2.1⟩
       · exact h2 p hp
     | close l =>
-      simp only [runHistory, queriesOf]
-      exact ih _ hc
+      simp only [runHistory, runHistoryT, queriesOf]
+      exact ih { s with closed := l :: s.closed } hs
 
 /-- Rules already materialised continue to be served: if `(idx, r)` is in the cache when a query
-    starts, `idx` is one of its candidates and `r` matches the request, then `r` is in the answer --
-    whatever lists are closed. -/
-theorem c19_cached {R : Type} (env : Env R) (s : State R) (q : Query) (idx : Idx) (r : R)
-    (hc : CacheInv env s) (hin : (idx, r) ∈ s.cache) (hcand : idx ∈ env.cands (env.reqOf q))
-    (hm : env.mtch r (env.reqOf q) = true) : r ∈ (runQuery env s q).2.answer env :=
-  runQuery_cached q hc hin hcand hm
+    starts, `idx` is one of its network-table candidates, `r` is of the wanted kind and matches the request
+    (as a fresh object), then `r` is in the answer -- whatever lists are closed and whatever the lazy-compile
+    cells hold. -/
+theorem c19_cached {R Re : Type} (env : Env R Re) (s : State R Re) (q : Query) (b : Bool) (idx : Idx) (r : R)
+    (hs : SInv env s) (hq : q.trivial = false) (hin : (idx, r) ∈ s.cache)
+    (hcand : (b, idx) ∈ env.cands (env.reqOf q)) (hw : env.wants (if b then .sc else .dom) r = true)
+    (hm : env.mtch r (env.reqOf q) = true) : r ∈ (runQuery env s q).2.answer.1 :=
+  runQuery_cached q hs hq hin hcand hw hm
 
 /-- The cache survives faults and later queries: an entry present before any suffix of a history
     (queries and `close` events) is still found afterwards; together with `c19_cached` (applied at the
     state before query i) this is "rules retrieved before k are still returned". -/
-theorem c19_cache_persists {R : Type} (env : Env R) (h : List HEv) :
-    ∀ (s : State R) (idx : Idx), (cacheLookup s.cache idx).isSome →
+theorem c19_cache_persists {R Re : Type} (env : Env R Re) (h : List HEv) :
+    ∀ (s : State R Re) (idx : Idx), (cacheLookup s.cache idx).isSome →
       (cacheLookup (runHistory env s h).1.cache idx).isSome := by
   induction h with
   | nil => intro s idx hl; exact hl
@@ -104,21 +157,38 @@ theorem c19_cache_persists {R : Type} (env : Env R) (h : List HEv) :
     intro s idx hl
     cases e with
     | query q =>
-      simp only [runHistory]
+      simp only [runHistory, runHistoryT]
       apply ih
       exact runQuery_inv env (fun s' _ => (cacheLookup s'.cache idx).isSome)
         (fun s' t h' => step_lookup_isSome env s' t idx h') s q hl
-    | close l => simp only [runHistory]; exact ih _ idx hl
+    | close l => simp only [runHistory, runHistoryT]; exact ih _ idx hl
 
 /-- Non-vacuity: list 1 is closed after the first query; the rule of index 10 (list 1) was retrieved
     before and is still served, the rule of index 11 (same list, never retrieved) is lost, the rule of
-    list 2 is still read: the degraded answer `[7, 9]` is a strict sub-sequence of `[7, 8, 9]`. -/
+    list 2 is still read: the degraded answer `[7, 9]` is a strict part of `[7, 8, 9]`; no crash. -/
 example :
-    let env : Env Nat := { truth := fun i => if i == 10 then some 7 else if i == 11 then some 8 else if i == 20 then some 9 else none,
-                           listOf := fun i => if i == 20 then 2 else 1, ruleId := id, etld1 := id,
-                           cands := fun req => if req.hostname == lit "a" then [10] else [10, 11, 20],
-                           mtch := fun _ _ => true, resident := [] }
-    (runHistory env {} [.query (.web { hostname := lit "a" }), .close 1, .query (.web { hostname := lit "b" })]).2 = [[7], [7, 9]] ∧
-    pureAnswer env (.web { hostname := lit "b" }) = [7, 8, 9] := by decide
+    let env : Env Nat Nat :=
+      { truth := fun i => if i == 10 then some 7 else if i == 11 then some 8 else if i == 20 then some 9 else none,
+        listOf := fun i => if i == 20 then 2 else 1, etld1 := id,
+        cands := fun req => if req.hostname == lit "a" then [(true, 10)] else [(true, 10), (false, 11), (true, 20)],
+        hcands := fun _ => [], basic := fun _ => false, wants := fun _ _ => true, pre := fun _ _ => true,
+        compile := fun _ => .re 0, accepts := fun _ _ _ => true, resident := [] }
+    (runHistory env {} [.query (.web { hostname := lit "a" }), .close 1, .query (.web { hostname := lit "b" })]).2 =
+        [([7], []), ([7, 9], [])] ∧
+    pureAnswer env (.web { hostname := lit "b" }) = ([7, 8, 9], []) := by decide
+
+/-- Non-vacuity of the host part: the blocking network rule (index 10, list 1) is unreadable after the
+    close, so `MatchRequest` falls through to the hosts table and returns the host rule 5 -- which the
+    fault-free answer `([7], [])` does not contain, and `pureHosts` does. -/
+example :
+    let env : Env Nat Nat :=
+      { truth := fun i => if i == 10 then some 7 else if i == 50 then some 5 else none,
+        listOf := fun i => if i == 10 then 1 else 2, etld1 := id,
+        cands := fun _ => [(true, 10)], hcands := fun _ => [50], basic := fun nrs => !nrs.isEmpty,
+        wants := fun _ _ => true, pre := fun _ _ => true,
+        compile := fun _ => .re 0, accepts := fun _ _ _ => true, resident := [] }
+    let q : Query := .dns { hostname := lit "a" }
+    (runHistory env {} [.close 1, .query q]).2 = [([], [5])] ∧ pureAnswer env q = ([7], []) ∧
+      pureHosts env (env.reqOf q) = [5] := by decide
 
 end UF.C19
